@@ -520,6 +520,11 @@ func segDecode(entry int, doc []byte, x any) (err error, pan string) {
 	c02Calls++
 	off := (c02Calls & 1) * 5
 	own := c02Arena[off : off+len(doc) : off+len(doc)]
+	if c02Calls%3 == 0 && cap(c02Arena) >= off+len(doc)+len(c17Behind) {
+		// a window into a larger buffer of the caller's: what lies behind len is not input
+		own = c02Arena[off : off+len(doc)]
+		copy(c02Arena[off+len(doc):], c17Behind)
+	}
 	copy(own, doc)
 	defer func() {
 		for i := range own {
@@ -991,6 +996,13 @@ func firstDiff(a, b reflect.Value, path string, depth int) (string, string) {
 		return firstDiff(a.Elem(), b.Elem(), path+".(any)", depth+1)
 	case reflect.Struct:
 		for i := 0; i < a.NumField(); i++ {
+			if a.Type().Field(i).PkgPath != "" {
+				// unexported: not reachable through Interface(); compare what fmt shows
+				if fmt.Sprintf("%#v", a.Field(i)) != fmt.Sprintf("%#v", b.Field(i)) {
+					return path + "." + a.Type().Field(i).Name, "unexported-field-differs"
+				}
+				continue
+			}
 			if !reflect.DeepEqual(a.Field(i).Interface(), b.Field(i).Interface()) {
 				return firstDiff(a.Field(i), b.Field(i), path+"."+a.Type().Field(i).Name, depth+1)
 			}
